@@ -131,6 +131,176 @@ def harmonics(rf):
     return H
 
 
+class _Undecided(Exception):
+    pass
+
+
+class _Sub(ast.NodeTransformer):
+    def __init__(self, env):
+        self.env = env
+
+    def visit_Name(self, n):
+        if isinstance(n.ctx, ast.Load) and n.id in self.env and isinstance(self.env[n.id], ast.AST):
+            import copy
+            return copy.deepcopy(self.env[n.id])
+        return n
+
+
+class _GenInterp(object):
+    """Abstract run of the body of the table loop for one scenario (entry distinct or not).  Locals are resolved to the
+    expressions that define them; the observable steps are recorded as events."""
+    def __init__(self, entry, distinct):
+        self.entry, self.distinct = entry, distinct
+        self.env = {}
+        self.events = []
+
+    def R(self, e):
+        import copy
+        return _Sub(self.env).visit(copy.deepcopy(e) if not hasattr(e, "_parent") else ast.parse(unparse(e), mode="eval").body)
+
+    def txt(self, e):
+        return unparse(self.R(e))
+
+    def cond(self, t):
+        r = self.R(t)
+        if isinstance(r, ast.UnaryOp) and isinstance(r.op, ast.Not):
+            return not self.cond(r.operand)
+        u = unparse(r)
+        if u in ("%s.get('distinct', True)" % self.entry,):
+            return self.distinct
+        if isinstance(r, ast.Compare) and len(r.ops) == 1 and isinstance(r.ops[0], (ast.Is, ast.IsNot)):
+            l, rr = unparse(r.left), unparse(r.comparators[0])
+            if l in ("window", "wsymm") and rr in ("window", "wsymm"):
+                return (l == rr) == isinstance(r.ops[0], ast.Is)
+        raise _Undecided("condition %s" % u)
+
+    def seq(self, e):
+        r = self.R(e)
+        if isinstance(r, ast.IfExp):
+            r = r.body if self.cond(r.test) else r.orelse
+        if isinstance(r, (ast.List, ast.Tuple)):
+            return list(r.elts)
+        raise _Undecided("sequence %s" % unparse(r))
+
+    def nsdict(self, e):
+        r = self.R(e)
+        if isinstance(r, ast.Call) and unparse(r.func) == "dict" and not r.args:
+            return {k.arg: unparse(k.value) for k in r.keywords}
+        if isinstance(r, ast.Dict):
+            return {ast.literal_eval(k): unparse(v) for k, v in zip(r.keys, r.values)}
+        return None
+
+    def run(self, stmts):
+        self.block(stmts)
+        return self.events
+
+    def block(self, stmts):
+        """returns 'break' when a break was executed"""
+        i = 0
+        while i < len(stmts):
+            st = stmts[i]
+            nxt = stmts[i + 1] if i + 1 < len(stmts) else None
+            i += 1
+            if isinstance(st, ast.Assign):
+                val = self.R(st.value)
+                for t in st.targets:
+                    if isinstance(t, ast.Name):
+                        self.env[t.id] = val
+                    elif isinstance(t, (ast.Tuple, ast.List)) and isinstance(val, (ast.Tuple, ast.List)) \
+                            and len(t.elts) == len(val.elts) and all(isinstance(x, ast.Name) for x in t.elts):
+                        for x, v in zip(t.elts, val.elts):
+                            self.env[x.id] = v
+                    elif isinstance(t, (ast.Subscript, ast.Attribute)):
+                        self.events.append(("store", self.txt(t), unparse(val)))
+                    else:
+                        raise _Undecided("assignment %s" % short(st))
+                continue
+            if isinstance(st, ast.Expr) and isinstance(st.value, ast.Call):
+                c = st.value
+                f = unparse(c.func)
+                if f == "%s.setdefault" % self.entry and len(c.args) == 2:
+                    self.events.append(("setdefault", "%s[%s]" % (self.entry, unparse(c.args[0])), unparse(c.args[1])))
+                    continue
+                if f == "exec" and 2 <= len(c.args) <= 3:
+                    if len(c.args) == 3 and self.txt(c.args[1]) != self.txt(c.args[2]):
+                        raise _Undecided("exec with different globals and locals")
+                    nsname = c.args[1].id if isinstance(c.args[1], ast.Name) else None
+                    self.events.append(("exec", self.txt(c.args[0]), self.nsdict(c.args[1]), nsname))
+                    if nsname:
+                        # what the namespace holds afterwards is referred to by the local's name
+                        self.env.pop(nsname, None)
+                    continue
+                if f == "reduce" and len(c.args) == 3 and isinstance(c.args[0], ast.Lambda):
+                    lam = c.args[0]
+                    ps = [a.arg for a in lam.args.args]
+                    if len(ps) == 2 and unparse(lam.body) == "%s(%s)" % (ps[1], ps[0]):
+                        self.events.append(("decorate", [unparse(self.R(x)) for x in self.seq(c.args[1])], self.txt(c.args[2])))
+                        continue
+                raise _Undecided("call %s" % short(st))
+            if isinstance(st, ast.If):
+                # "k not in entry: entry[k] = v"  is setdefault
+                t = st.test
+                if isinstance(t, ast.Compare) and len(t.ops) == 1 and isinstance(t.ops[0], ast.NotIn) \
+                        and unparse(t.comparators[0]) == self.entry and not st.orelse and len(st.body) == 1 \
+                        and isinstance(st.body[0], ast.Assign) and unparse(st.body[0].targets[0]) == "%s[%s]" % (
+                            self.entry, unparse(t.left)):
+                    self.events.append(("setdefault", unparse(st.body[0].targets[0]), unparse(st.body[0].value)))
+                    continue
+                r = self.block(st.body if self.cond(t) else st.orelse)
+                if r == "break":
+                    return r
+                continue
+            if isinstance(st, ast.For) and isinstance(st.target, ast.Name):
+                # decorator application loop:  f = ns[..] ; for d in decos: f = d(f)
+                if len(st.body) == 1 and isinstance(st.body[0], ast.Assign) and isinstance(st.body[0].targets[0], ast.Name) \
+                        and unparse(st.body[0].value) == "%s(%s)" % (st.target.id, st.body[0].targets[0].id):
+                    fname = st.body[0].targets[0].id
+                    if fname not in self.env:
+                        raise _Undecided("decorated object unknown")
+                    self.events.append(("decorate", [unparse(self.R(x)) for x in self.seq(st.iter)], unparse(self.env[fname])))
+                    continue
+                try:
+                    items = self.seq(st.iter)
+                except _Undecided:
+                    # some other iteration: its body is run once with an opaque element
+                    items = [ast.Name(id="<each of %s>" % self.txt(st.iter), ctx=ast.Load())]
+                for item in items:
+                    self.env[st.target.id] = item
+                    if self.block(st.body) == "break":
+                        break
+                continue
+            if isinstance(st, ast.Break):
+                return "break"
+            if isinstance(st, (ast.Assert, ast.Pass)):
+                continue
+            raise _Undecided("statement %s" % short(st))
+        return None
+
+
+def _transparent_decorator(repo, text):
+    """(True/False, description) for a module-level decorator whose wrapper can be read; None when unknown"""
+    try:
+        e = ast.parse(text, mode="eval").body
+    except SyntaxError:
+        return None
+    if not isinstance(e, ast.Name):
+        return None
+    fn = repo.find(LA, e.id, required=False)
+    if fn is None or not isinstance(fn, FuncTypes) or not fn.args.args:
+        return None
+    fparam = fn.args.args[0].arg
+    inner = [x for x in fn.body if isinstance(x, FuncTypes)]
+    rets = [x for x in fn.body if isinstance(x, ast.Return)]
+    if not inner:
+        ok = all(isinstance(r.value, ast.Name) and r.value.id == fparam for r in rets) and rets
+        return (bool(ok), "returns the function itself" if ok else "returns something else than the function")
+    w = inner[-1]
+    wr = [n for n in ast.walk(w) if isinstance(n, ast.Return)]
+    direct = all(isinstance(r.value, ast.Call) and isinstance(r.value.func, ast.Name) and r.value.func.id == fparam for r in wr)
+    return (bool(wr) and direct, "wrapper returns the call's own result" if (wr and direct) else
+            "wrapper returns %s" % ", ".join(sorted({short(r.value, 30) if r.value is not None else "None" for r in wr})))
+
+
 def run(chk, repo):
     mod = repo.mod(LA)
     W = lambda q: "%s:%s" % (mod.relpath, q)
@@ -141,37 +311,93 @@ def run(chk, repo):
     if not (isinstance(tp_node, ast.Constant) and isinstance(ts_node, ast.Constant)):
         raise AnalysisError("window/wsymm._code_template are not string literals")
     tp, ts = tp_node.value, ts_node.value
+    rtp, rts = repo.ref_assign(LA, "window._code_template"), repo.ref_assign(LA, "wsymm._code_template")
+    ref_tp = rtp.value if isinstance(rtp, ast.Constant) and isinstance(rtp.value, str) else None
+    ref_ts = rts.value if isinstance(rts, ast.Constant) and isinstance(rts.value, str) else None
 
     # ------------------------------------------------------------- generator
+    chk.rule("C14.fresh", "decorators between the exec'd template and its registration hand back the call's own result")
     chk.rule("C14.generate", "_generate_window_strategies: for every table entry, sname = names[0], params_def defaults "
                              "to ''; for sdict in [window, wsymm]: exec(sdict._code_template.format(**entry)) with "
                              "pi/sin/cos/xrange in scope and registered under all names; non-distinct entries alias "
                              "wsymm[sname] = window[sname]; .periodic/.symm cross-links set on both strategies")
     gen = repo.find(LA, "_generate_window_strategies")
-    gtxt = [unparse(s) for s in docstring_free(gen.body)]
     loop = [s for s in docstring_free(gen.body) if isinstance(s, ast.For)]
-    chk.require(len(loop) == 1 and unparse(loop[0].iter) == "window._content_generation_table",
-                "_generate_window_strategies: loop over the table not found")
-    lb = [unparse(s) for s in loop[0].body]
-    ok = lb[0] == "names = wnd_dict['names']" and lb[1] == "sname = wnd_dict['sname'] = names[0]" \
-        and lb[2] == "wnd_dict.setdefault('params_def', '')"
-    chk.decide(ok, "C14.generate", W("_generate_window_strategies"), " ; ".join(lb[:3]),
-               why="strategy name must be the first alias and params_def default to ''", node=loop[0])
-    inner = [s for s in loop[0].body if isinstance(s, ast.For)]
-    ok = len(inner) == 1 and unparse(inner[0].iter) == "[window, wsymm]"
-    if ok:
-        it = [unparse(s) for s in inner[0].body]
-        ok = any(t == "exec(sdict._code_template.format(**wnd_dict), ns, ns)" for t in it) \
-            and any(t.startswith("ns = dict(pi=pi, sin=sin, cos=cos, xrange=xrange") for t in it) \
-            and any("sdict.strategy(*names)" in t for t in it) \
-            and any("reduce(lambda func, dec: dec(func), decorators, ns[sname])" in t for t in it) \
-            and it[-1] == "if not wnd_dict.get('distinct', True):\n    wsymm[sname] = window[sname]\n    break"
-    chk.decide(ok, "C14.generate", W("_generate_window_strategies"), "periodic then symmetric template exec'd and registered; "
-               "non-distinct entries alias", why="generation loop changed: %s" % (lb[3][:200] if len(lb) > 3 else "?"), node=loop[0])
-    ok = lb[-2:] == ["wsymm[sname].periodic = window[sname].periodic = window[sname]",
-                     "wsymm[sname].symm = window[sname].symm = wsymm[sname]"]
-    chk.decide(ok, "C14.generate", W("_generate_window_strategies"), " ; ".join(lb[-2:]),
-               why=".periodic of both must be the window strategy and .symm the wsymm strategy", node=loop[0])
+    chk.require(len(loop) == 1 and unparse(loop[0].iter) == "window._content_generation_table"
+                and isinstance(loop[0].target, ast.Name), "_generate_window_strategies: loop over the table not found")
+    entry = loop[0].target.id
+    Wg = W("_generate_window_strategies")
+    S = "%s['names'][0]" % entry
+    for distinct in (True, False):
+        try:
+            ev = _GenInterp(entry, distinct).run(loop[0].body)
+        except _Undecided as ex:
+            raise AnalysisError("_generate_window_strategies not interpretable (%s)" % ex)
+        tag = "[distinct=%s] " % distinct
+        stores = {e[1]: e[2] for e in ev if e[0] == "store"}
+        chk.decide(stores.get("%s['sname']" % entry) == S, "C14.generate", Wg, tag + "%s['sname'] = %s" % (
+            entry, stores.get("%s['sname']" % entry)), why="the generated function is named after the first alias", node=loop[0])
+        chk.decide(("setdefault", "%s['params_def']" % entry, "''") in ev, "C14.generate", Wg, tag + "params_def defaults to ''",
+                   why="entries without parameters must format an empty parameter list", node=loop[0])
+        want_dicts = ["window", "wsymm"] if distinct else ["window"]
+        execs = [(i, e) for i, e in enumerate(ev) if e[0] == "exec"]
+        decos = [(i, e) for i, e in enumerate(ev) if e[0] == "decorate"]
+        got_dicts = []
+        for (i, e) in execs:
+            m = [k for k in ("window", "wsymm") if e[1] == "%s._code_template.format(**%s)" % (k, entry)]
+            got_dicts.append(m[0] if m else e[1])
+        chk.decide(got_dicts == want_dicts, "C14.generate", Wg, tag + "templates exec'd: %s" % got_dicts,
+                   why="expected the %s template(s), formatted with the table entry, in this order" % " then ".join(want_dicts),
+                   node=loop[0])
+        for (i, e) in execs:
+            ns = e[2]
+            need = {"pi": "pi", "sin": "sin", "cos": "cos", "xrange": "xrange"}
+            okns = ns is not None and all(ns.get(k) == v for k, v in need.items())
+            chk.decide(okns, "C14.generate", Wg, tag + "exec namespace %s" % (sorted(ns) if ns else ns),
+                       why="formulas need pi, sin, cos and xrange (the scalar math ones) in scope", node=loop[0])
+        chk.decide(len(decos) == len(execs) and all(d[0] > x[0] for d, x in zip(decos, execs)), "C14.generate", Wg,
+                   tag + "%d registration(s) for %d generated function(s)" % (len(decos), len(execs)),
+                   why="every generated function must be registered once, after it was generated", node=loop[0])
+        for K, (i, e) in zip(got_dicts, decos):
+            lst, target = e[1], e[2]
+            want_reg = "%s.strategy(*%s['names'])" % (K, entry)
+            want_doc = "format_docstring(**window._doc_kwargs(symm=%s is wsymm, **%s))" % (K, entry)
+            chk.decide(want_reg in lst, "C14.generate", Wg, tag + "%s: registered by %s" % (K, [x for x in lst if "strategy" in x]),
+                       why="must be stored in %s under all the names of the entry" % K, node=loop[0])
+            chk.decide(lst.count(want_doc) == 1 and lst.index(want_doc) < (lst.index(want_reg) if want_reg in lst else 99),
+                       "C14.generate", Wg, tag + "%s: docstring decorator applied before registration" % K,
+                       why="expected %s" % want_doc, node=loop[0])
+            chk.decide(target.endswith("[%s]" % S) or target.endswith("[%s['sname']]" % entry), "C14.generate", Wg,
+                       tag + "%s: decorated object is %s" % (K, target), why="the function just generated (namespace[sname])",
+                       node=loop[0])
+            for extra in [x for x in lst if x not in (want_reg, want_doc)]:
+                verdict = _transparent_decorator(repo, extra)
+                if verdict is None:
+                    raise AnalysisError("_generate_window_strategies: unknown decorator %s" % extra)
+                chk.decide(verdict[0], "C14.fresh", Wg, tag + "%s: extra decorator %s: %s" % (K, extra, verdict[1]),
+                           why="every call of a window strategy must evaluate the template again and return a new list; a "
+                               "wrapper that hands out stored results makes callers share (and mutate) one list", node=loop[0])
+        alias = [i for i, e in enumerate(ev) if e == ("store", "wsymm[%s]" % S, "window[%s]" % S)]
+        if distinct:
+            chk.decide(not alias, "C14.generate", Wg, tag + "no aliasing of distinct strategies", why="wsymm entry overwritten",
+                       node=loop[0])
+        else:
+            chk.decide(len(alias) == 1 and decos and alias[0] > decos[-1][0], "C14.generate", Wg,
+                       tag + "wsymm[sname] = window[sname] after the periodic function is registered",
+                       why="non-distinct entries share the periodic function", node=loop[0])
+        other = [e for e in ev if e[0] == "store" and (e[1].startswith(("window[", "wsymm[")) and e[1].endswith("]"))
+                 and e != ("store", "wsymm[%s]" % S, "window[%s]" % S)]
+        chk.decide(not other, "C14.generate", Wg, tag + "no other item of window / wsymm is assigned",
+                   why="strategies are stored by the registration decorator only; %s overwrites entries" % (
+                       ["%s = %s" % (e[1], e[2]) for e in other[:2]],), node=loop[0])
+        links = {(e[1], e[2]) for e in ev if e[0] == "store" and (e[1].endswith(".periodic") or e[1].endswith(".symm"))}
+        want_links = {("wsymm[%s].periodic" % S, "window[%s]" % S), ("window[%s].periodic" % S, "window[%s]" % S),
+                      ("wsymm[%s].symm" % S, "wsymm[%s]" % S), ("window[%s].symm" % S, "wsymm[%s]" % S)}
+        last_reg = max([i for i, _ in decos] + alias + [-1])
+        link_idx = [i for i, e in enumerate(ev) if e[0] == "store" and (e[1].endswith(".periodic") or e[1].endswith(".symm"))]
+        chk.decide(links == want_links and all(i > last_reg for i in link_idx), "C14.generate", Wg,
+                   tag + "links: %s" % sorted(links), why=".periodic of both must be the window strategy and .symm the wsymm "
+                   "strategy, set once both exist", node=loop[0])
     imports = {n.names[0].name for n in mod.tree.body if isinstance(n, ast.ImportFrom) and n.module == "math" for _ in [0]}
     mi = [n for n in mod.tree.body if isinstance(n, ast.ImportFrom) and n.module == "math"]
     names = {a.name for n in mi for a in n.names}
@@ -226,6 +452,19 @@ def run(chk, repo):
             continue
         nfun += 2
         Wn = W("window/wsymm[%s]" % sname)
+        # a template that was only re-worded (locals renamed, single exit, ...) generates functions that are provably
+        # equivalent to the ones the confirmed template generates from this same table entry: judge those
+        if ref_tp is not None and ref_ts is not None and (ref_tp != tp or ref_ts != ts):
+            from ..equiv import same_function
+            try:
+                rpf = [n for n in parse_snippet(ref_tp.format(**fmt)).body if isinstance(n, ast.FunctionDef)][0]
+                rsf = [n for n in parse_snippet(ref_ts.format(**fmt)).body if isinstance(n, ast.FunctionDef)][0]
+                if same_function(pf, rpf):
+                    pf = rpf
+                if same_function(sf, rsf):
+                    sf = rsf
+            except (KeyError, IndexError, SyntaxError):
+                pass
         # periodic shape
         pb = docstring_free(pf.body)
         okp = len(pb) == 1 and isinstance(pb[0], ast.Return) and isinstance(pb[0].value, ast.ListComp) \
